@@ -195,6 +195,14 @@ def templates(uni: qgen.Universe, rng: random.Random) -> List[T]:
         add(f"ds.Select(lambda e: {C}.Select(lambda j: j.vals().First() if j.vals().Count() > 0 else -1.0))", ["first", "ifexp", "guard", "inner_first"])
         add(f"ds.Select(lambda e: {C}.Select(lambda j: j.vals().First()))", ["first", "inner_first"])
         add(f"ds.Select(lambda e: {C}.Select(lambda j: j.vals().Where(lambda v: v > {th}).First()))", ["first", "inner_first", "where"])
+        # a literal operand that decides an and / or AFTER a partial operation: the earlier operand is still evaluated (and
+        # still fails when it is undefined); BEFORE it, the later operand is not evaluated at all
+        add(f"ds.Select(lambda e: {C}.First().pt() > {th} and False)", ["first", "and", "literal_operand"])
+        add(f"ds.Select(lambda e: {C}[{k}].pt() > {th} or True)", ["index", "event_index", "or", "literal_operand"])
+        add(f"ds.Select(lambda e: False and {C}.First().pt() > {th})", ["first", "and", "literal_operand", "guard"])
+        add(f"ds.Select(lambda e: True or {C}[{k}].pt() > {th})", ["index", "event_index", "or", "literal_operand", "guard"])
+        add(f"ds.Where(lambda e: {C}.First().pt() > {th} or True).Select(lambda e: {C}.Count())", ["first", "or", "literal_operand", "event_where"])
+        add(f"ds.Select(lambda e: {C}.Select(lambda j: j.vals()[{k}] > 0 and False))", ["index", "and", "literal_operand"])
         # a partial operation inside the filter BEFORE a First: once the first element is found the query asks nothing of
         # the elements after it
         add(f"ds.Select(lambda e: {C}.Where(lambda j: j.vals()[0] > {th}).First().{meth}())", ["first", "index", "where", "partial_filter_before_first"])
